@@ -496,6 +496,12 @@ NextPin:
 			pIn.Key = "0"
 		}
 
+		if pIn.Value == 0 {
+			// SQLite does not keep the sign of a negative zero, so drop it
+			// here to keep the hash in step with what is stored
+			pIn.Value = 0
+		}
+
 		for j, pDb := range dbPoints {
 			if pIn.Type == pDb.Type && pIn.Key == pDb.Key {
 				// found a match
@@ -681,6 +687,12 @@ NextPin:
 
 		if pIn.Key == "" {
 			pIn.Key = "0"
+		}
+
+		if pIn.Value == 0 {
+			// SQLite does not keep the sign of a negative zero, so drop it
+			// here to keep the hash in step with what is stored
+			pIn.Value = 0
 		}
 
 		for j, pDb := range dbPoints {
